@@ -116,6 +116,27 @@ def specials():
         S['macrobatch/%d/fn@%d/use' % (n, k)] = defs + 'char c;\nvoid main() { c = M5 + M%d + M%d(2); }\n' % (n - 1, k)
         S['macrobatch/%d/fn@%d/undef' % (n, k)] = defs + '#undef M3\n#undef M%d\nchar c;\nvoid main() { c = M5 + M%d; }\n' % (k, n - 1 if k != n - 1 else 0)
         S['macrobatch/%d/fn@%d/redefine' % (n, k)] = defs + '#undef M%d\n#define M%d 1\n#define MX(q) (q)\nchar c;\nvoid main() { c = MX(M%d) + M%d; }\n' % (k, k, k, n - 1 if k != n - 1 else 0)
+    # rejected or accepted, never a panic: names that are not variables where a variable is expected, void values for X / Y,
+    # negative sizes, *= and /=, a literal placeholder typed by hand, repeated macro parameters
+    for nm, src in [('strobe-reg', 'void main() { strobe(X); }'), ('strobe-fn', 'void f() {}\nvoid main() { strobe(f); }'), ('strobe-undeclared', 'void main() { strobe(nope); }'),
+                    ('neg-array-local', 'void main() { short a[-1]; a[0] = 1; }'), ('neg-array-global', 'short a[-1];\nvoid main() { }'), ('neg-array-expr', 'char a[2 - 5];\nvoid main() { }'), ('zero-array', 'char a[0];\nvoid main() { }'),
+                    ('Y=void', 'void f() {}\nvoid main() { Y = f(); }'), ('X=void', 'void f() {}\nvoid main() { X = f(); }'), ('arr=void', 'char t[2];\nvoid f() {}\nvoid main() { t[X] = f(); }'),
+                    ('mulass', 'char x;\nvoid main() { x *= 2; }'), ('divass', 'char x;\nvoid main() { x /= 2; }'), ('mulass16', 'short x;\nvoid main() { x *= 4; }'), ('mulass-reg', 'void main() { X *= 2; }'),
+                    ('placeholder', 'char *s;\nvoid main() { s = @7@; }'), ('placeholder0', 'char *s;\nvoid main() { s = @0@; }'), ('placeholder-mixed', 'char *s;\nvoid main() { s = "a"; s = @1@; }'),
+                    ('dup-param', '#define F(a,a) a\nchar c;\nvoid main() { c = F(1,2); }'), ('empty-param', '#define F(a,,b) a\nchar c;\nvoid main() { c = 1; }'), ('paren-param', '#define F((a) a\nchar c;\nvoid main() { c = 1; }'),
+                    ('continue-switch-noloop', 'char c;\nvoid main() { switch (c) { case 1: continue; } }'), ('ifcontinue-switch-noloop', 'char c;\nvoid main() { switch (c) { case 1: if (c) continue; } }'),
+                    ('ifcontinue-switch-do', 'char a, b, x;\nvoid main() { do { switch (a) { case 1: if (b) continue; case 2: b = 3; break; } x++; } while (x < 10); }'),
+                    ('ptr-to-short', 'char a;\n\n\nshort *p;\nvoid main() {}'), ('sizeof-elem', 'char t[5]; char c;\nvoid main() { c = sizeof(t[0]); }')]:
+        S['w4/' + nm] = src
+    # inline functions whose bodies contain every kind of branch (the copy made for the caller renames them)
+    for nm, body in [('scmp', 'if (s < 0) v = 1;'), ('scmp-ge', 'if (s >= 0) v = 1; else v = 2;'), ('wcmp', 'if (w > 300) v = 1;'), ('wcmp-le', 'if (w <= h) v = 1;'), ('signext', 'h = s;'), ('signext-add', 'h = h + s;'),
+                     ('loop', 'while (v) v--;'), ('for', 'for (X = 0; X != 4; X++) v++;'), ('switch', 'switch (v) { case 1: v = 2; break; default: v = 3; }'), ('ret', 'if (v) return; v = 1;'),
+                     ('tern', 'v = s < 0 ? 1 : 2;'), ('land', 'if (v && s) v = 0;'), ('do', 'do { v++; } while (v < 3);')]:
+        S['w4/inline-body/' + nm] = 'signed char s; short w, h; char v;\ninline void g() { %s }\nvoid main() { g(); v++; g(); }\n' % body
+        S['w4/inline-nested/' + nm] = 'signed char s; short w, h; char v;\ninline void g() { %s }\ninline void f() { g(); if (v) g(); }\nvoid main() { f(); }\n' % body
+    for nm, decl in [('array-then-scalar', 'char buf[4], n;'), ('scalar-then-array', 'char n, buf[4];'), ('two-arrays', 'char a[2], b[3];'), ('short-array-then-scalar', 'short w[2], n;'), ('init-then-array', 'char n = 1, buf[2];'),
+                     ('ptr-then-scalar', 'char *p, n;')]:
+        S['w4/local-decl/' + nm] = 'char g;\nvoid f() { %s n = 1; g = n; }\nvoid main() { f(); }\n' % decl
     S['continue-in-switch-in-do'] = 'char a, b;\nvoid main() { do { switch (a) { case 1: continue; default: b = 1; } a++; } while (a < 3); }\n'
     S['break-in-switch-in-for'] = 'char a, b;\nvoid main() { for (a = 0; a < 3; a++) { switch (a) { case 1: break; default: continue; } b++; } }\n'
     S['macros150'] = ''.join('#define M%d %d\n' % (k, k) for k in range(150)) + '#undef M120\n#undef M3\nchar c;\nvoid main() { c = M5 + M149; }\n'
